@@ -155,5 +155,14 @@ Example C15_nonvacuous :
   /\ category_filter src_cfg ex_rules [110;101;116] Info = false        (* "net": net.* does not match it *)
   /\ category_filter src_cfg ex_rules [97;46;98;43;99] Debug = true     (* "a.b+c" literally *)
   /\ category_filter src_cfg ex_rules [97;120;98;43;99] Debug = false   (* "axb+c": '.' is not a wildcard *)
-  /\ category_filter src_cfg [] ex_net_http Debug = true.
+  /\ category_filter src_cfg [] ex_net_http Debug = true
+  (* " net.debug\t= true " is a typed rule for "net"; ".debug=false" is an untyped rule for ".debug";
+     "a b=true", "a=TRUE" and "=true" are malformed *)
+  /\ parse_line src_cfg [32;110;101;116;46;100;101;98;117;103;9;61;32;116;114;117;101;32]
+     = Some {| pat := [110;101;116]; rtype := Some Debug; enabled := true |}
+  /\ parse_line src_cfg [46;100;101;98;117;103;61;102;97;108;115;101]
+     = Some {| pat := [46;100;101;98;117;103]; rtype := None; enabled := false |}
+  /\ parse_line src_cfg [97;32;98;61;116;114;117;101] = None
+  /\ parse_line src_cfg [97;61;84;82;85;69] = None
+  /\ parse_line src_cfg [61;116;114;117;101] = None.
 Proof. vm_compute. repeat split; reflexivity. Qed.
